@@ -290,10 +290,92 @@ static void dfs(seqx::Runner &R, size_t limit, int depth, std::vector<int> &seq,
     }
 }
 
+// ---------------------------------------------------------------------------------------------- constructor form of pushed items
+// push(args...) is documented as emplace: the delivered item is what T(args...) builds - whether it went through the queue's
+// storage, was handed to a waiting pop directly, or sat with a blocked producer. vector<int>(3, 7) tells T(...) from T{...}.
+template <typename MakeQ>
+static void ctorform_case(seqx::Runner &R, const char *qname, MakeQ makeq, const std::vector<int> &seq) {
+    using V = std::vector<int>;
+    std::ostringstream d;
+    d << "ctorform;queue=" << qname << ";ops=";
+    for (size_t i = 0; i < seq.size(); i++) d << (i ? "," : "") << (seq[i] ? "pop" : "push(3,7)");
+    R.begin(d.str());
+    {
+        auto q = makeq();
+        std::vector<std::unique_ptr<cocls::future<V>>> pops;
+        std::vector<std::shared_ptr<void>> push_results;  // what push() returns (a future for a bounded queue) lives until the end
+        auto do_push = [&] {
+            using Ret = decltype(q->push(3, 7));
+            if constexpr (std::is_void_v<Ret>)
+                q->push(3, 7);
+            else {
+                seqx::NoCount nc;
+                push_results.emplace_back(std::shared_ptr<void>(new Ret(q->push(3, 7))));
+            }
+        };
+        int pushes = 0;
+        for (int op : seq) {
+            if (op) {
+                seqx::NoCount nc;
+                pops.emplace_back(new cocls::future<V>(q->pop()));
+            } else {
+                do_push();
+                pushes++;
+            }
+            R.step();
+        }
+        while (pushes < (int)pops.size()) {
+            do_push();
+            pushes++;
+        }
+        while ((int)pops.size() < pushes) {
+            seqx::NoCount nc;
+            pops.emplace_back(new cocls::future<V>(q->pop()));
+        }
+        for (size_t i = 0; i < pops.size() && !R.case_fail; i++) {
+            if (!pops[i]->ready()) {
+                R.fail("q/pop-not-completed", "pop %zu did not complete although as many items were pushed as popped", i);
+                break;
+            }
+            V &v = pops[i]->value();
+            if (v != V(3, 7))
+                R.fail("q/item-not-as-constructed", "push(3, 7) into a queue of vector<int> delivered %zu element(s), first %d - vector<int>(3, 7) is three sevens", v.size(), v.empty() ? -1 : v[0]);
+        }
+        seqx::NoCount nc;
+        pops.clear();
+        push_results.clear();
+    }
+    R.state(seqx::hash_str(d.str()));
+    R.outcome(1);
+    R.end(true);
+}
+template <typename MakeQ>
+static void ctorform_enum(seqx::Runner &R, const char *qname, MakeQ makeq, int depth, std::vector<int> &seq, const std::string &want) {
+    if (!seq.empty()) {
+        std::string ops;
+        for (size_t i = 0; i < seq.size(); i++) ops += std::string(i ? "," : "") + (seq[i] ? "pop" : "push(3,7)");
+        std::string key = std::string("ctorform;queue=") + qname + ";ops=" + ops;
+        if (want.empty() ? R.next_case() : key == want) ctorform_case(R, qname, makeq, seq);
+    }
+    if ((int)seq.size() >= depth || R.stop()) return;
+    for (int op = 0; op < 2; op++) {
+        seq.push_back(op);
+        ctorform_enum(R, qname, makeq, depth, seq, want);
+        seq.pop_back();
+    }
+}
+
+static void ctorform_all(seqx::Runner &R, const std::string &want) {
+    std::vector<int> seq;
+    ctorform_enum(R, "limited_queue(limit=1)", [] { return std::make_unique<cocls::limited_queue<std::vector<int>>>(1); }, 4, seq, want);
+    ctorform_enum(R, "limited_queue(limit=2)", [] { return std::make_unique<cocls::limited_queue<std::vector<int>>>(2); }, 5, seq, want);
+}
+
 }  // namespace
 
 void seqx_run(seqx::Runner &R, const std::string &tier) {
     int depth = tier == "quick" ? 8 : 11;
+    ctorform_all(R, "");
     for (size_t limit = 1; limit <= 4; limit++) {
         Model m;
         m.limit = limit;
@@ -303,6 +385,10 @@ void seqx_run(seqx::Runner &R, const std::string &tier) {
 }
 
 void seqx_replay(seqx::Runner &R, const std::string &c) {
+    if (c.rfind("ctorform;", 0) == 0) {
+        ctorform_all(R, c);
+        return;
+    }
     size_t limit = (size_t)atoi(c.c_str() + c.find("limit=") + 6);
     std::vector<int> seq;
     std::string ops = c.substr(c.find("ops=") + 4);
